@@ -252,7 +252,8 @@ class Strings(Set):
         """Return ``True`` if all strings in ``other`` have size `length`."""
         dtype = getattr(other, 'dtype', None)
         if dtype is None:
-            dtype = np.result_type(*other)
+            # `np.result_type` would interpret strings as dtype names
+            dtype = np.asarray(other).dtype
         dtype_str = np.dtype('S{}'.format(self.length))
         dtype_uni = np.dtype('<U{}'.format(self.length))
         return dtype in (dtype_str, dtype_uni)
